@@ -172,9 +172,31 @@ def instantiate(ground, schemas, rounds=2, extra_terms=(), relevance=True):
                 pool_add(t.arg(1), array_consts(t.arg(0)))
             elif k == z3.Z3_OP_SEQ_NTH:
                 pool_add(t.arg(1), seq_consts(t.arg(0)))
+            elif k in (z3.Z3_OP_SEQ_EXTRACT, z3.Z3_OP_SEQ_AT):
+                pool_add(t.arg(1), None)      # s[i] / s[i:j] positions
             elif k == z3.Z3_OP_UNINTERPRETED and t.decl().name().startswith("sk."):
                 pool_add(t, None)      # skolem witnesses of opaque predicate definitions
+        str_lits = None
+        decl_names = None
         for si, sc in enumerate(schemas):
+            nd = getattr(sc, "needs_decls", None)
+            if nd is not None:
+                if decl_names is None:
+                    decl_names = set()
+                    for t in terms:
+                        if z3.is_app(t) and t.decl().kind() == z3.Z3_OP_UNINTERPRETED:
+                            decl_names.add(t.decl().name())
+                if not (decl_names & nd):
+                    continue
+            lits = getattr(sc, "lits", None)
+            if lits is not None:
+                if str_lits is None:
+                    str_lits = set()
+                    for t in terms:
+                        if z3.is_string_value(t):
+                            str_lits.add(t.as_string())
+                if not (str_lits & lits):
+                    continue
             max_round = getattr(sc, "rounds", rounds)
             if rnd >= max_round:
                 continue
